@@ -19,7 +19,7 @@ from evidence import Outcome
 
 
 def make_units(seed, n, wd):
-    profs = ["memo", "unicode", "leftrec", "unicode", "userfn", "mix", "unicode", "trace", "core", "unicode"]
+    profs = ["memo", "unicode", "leftrec", "charclass", "userfn", "mix", "unicode", "trace", "charclass", "unicode"]
     units = []
     cases = []
     texts = {}
@@ -41,7 +41,7 @@ def make_units(seed, n, wd):
                       "exports": [(r.name, types[r.name].position) for r in g.exported()], "ctx": False})
         irnd = random.Random("c20i/%s/%d" % (seed, i))
         for r in g.exported():
-            for s in inputs_mod.inputs_for(g, r.name, irnd, n_sent=6, n_total=16, unicode_heavy=(prof in ("unicode", "mix"))):
+            for s in inputs_mod.inputs_for(g, r.name, irnd, n_sent=6, n_total=(30 if prof in ("unicode", "charclass") else 16), unicode_heavy=(prof in ("unicode", "mix", "charclass"))):
                 cases.append(("c%d" % k, i, r.name, 2, 50000000, s))
                 k += 1
     return units, cases, texts
@@ -50,7 +50,7 @@ def make_units(seed, n, wd):
 def write_cases(path, cases):
     with open(path, "w") as f:
         for c in cases:
-            f.write("%s\t%d\t%s\t%d\t%d\t%s\n" % (c[0], c[1], c[2], c[3], c[4], build.hexs(c[5])))
+            f.write("%s\t%d\t%s\t%d\t%d\t%s\n" % (c[0], c[1], c[2], c[3], c[4], build.hexs(c[5])))  # (extra tuple members are ignored)
 
 
 def fingerprint(rec):
@@ -194,6 +194,9 @@ def check_C20(tier, seed):
         if overlaps == 0:
             out.inconc("no_overlapping_parses_observed")
         out.samples = [{"grammar_text": texts[c[1]][:300], "rule": c[2], "input": c[5]} for c in cases[:3]]
+        e2, n2 = deep_leg(out, wd, tier, seed)
+        evaluations += e2
+        nontriv += n2
         if tier == "thorough":
             tsan_leg(out, wd, units, cases, seed)
             miri_leg(out, wd, units, cases, seed)
@@ -201,8 +204,155 @@ def check_C20(tier, seed):
         shutil.rmtree(wd, ignore_errors=True)
     rule = ("grammars of the memo/leftrec/trace/core/userfn profiles x 16 inputs per exported rule: (a) sequential baseline vs a shuffled sequential history with repeats and other parsers interleaved; "
             "(b) the same multiset (x2) randomly assigned to 2-32 threads started at a barrier with yields/sleeps injected from tracer callbacks; result, user-function calls and the full rule entry/exit sequence of every parse must equal the baseline. "
-            "thorough adds a ThreadSanitizer build and Miri (-Zmiri-many-seeds). evaluations = parses compared with the baseline; non-trivial = the parse progressed beyond offset 0.")
+            "(c) four recursive grammars x inputs nested 1..1300 (thorough 2600) levels deep (ladder) plus 16 (thorough 40) deeper ones, each compared with its fresh-process result in ascending / deepest-first / shuffled histories and on 4 and 8 threads (2 GiB stacks). thorough adds a ThreadSanitizer build and Miri (-Zmiri-many-seeds). evaluations = parses compared with the baseline; non-trivial = the parse progressed beyond offset 0.")
     return out.finish(evaluations, nontriv, rule, floor=50)
+
+
+DEEP_GRAMMARS = [
+    # (text, exported rule, input of nesting depth d, rule calls per level)
+    ("@export Ss = e:Expr $;\n@leftrec Expr = l:*Expr '+' r:Term | r:Term;\nTerm = '(' e:*Expr ')' | n:Num;\n@memoize @string @no_skip_ws Num = {'0'..'9'}+;\n",
+     "Ss", lambda d: "(" * d + "1" + ")" * d),
+    ("@export Nest = '[' { items:*Nest } ']' | a:Atom;\n@string Atom = 'a'..'z';\n", "Nest", lambda d: "[" * d + "a" + "]" * d),
+    ("@export Rr = 'x' r:*Rr | 'y';\n", "Rr", lambda d: "x" * d + "y"),
+    ("@export @memoize Mm = '<' m:*Mm '>' o:Oo | o:Oo;\n@memoize Oo = 'o' | !'<' 'p';\n", "Mm", lambda d: "<" * d + "o" + ">o" * d),
+]
+
+
+def deep_leg(out, wd, tier, seed):
+    """deeply nested inputs (hundreds to thousands of levels) mixed into histories and threads: results must not depend on
+    what the thread parsed before.  The harness gives every driver thread a 2 GiB stack, so the native stack is never
+    what is being tested; a process that still dies is counted as inconclusive."""
+    rnd = random.Random("c20/%s/deep" % seed)
+    units = []
+    texts = {}
+    for i, (text, rule, _) in enumerate(DEEP_GRAMMARS):
+        gp = os.path.join(wd, "deep%d.ebnf" % i)
+        with open(gp, "w", encoding="utf-8") as f:
+            f.write(text)
+        texts[i] = text
+        units.append({"gidx": i, "gpath": gp, "code_path": os.path.join(wd, "deep%d.rs" % i), "exports": [(rule, False)], "ctx": False})
+    r = build.run_cgdrv("gen", [("d%d" % u["gidx"], u["gpath"], u["code_path"], "-", "-") for u in units], wd)
+    units = [u for u in units if r["d%d" % u["gidx"]][0] == "ok"]
+    if not units:
+        out.inconc("deep_leg_grammars_rejected")
+        return 0, 0
+    step = 61 if tier == "quick" else 17
+    top = 1300 if tier == "quick" else 2600
+    ladder = list(range(1, top, step)) + [255, 256, 257, 511, 512, 513, 1023, 1024, 1025] + ([2047, 2048, 2049] if tier != "quick" else [])
+    over = [top + 100 + 13 * j for j in range(12 if tier == "quick" else 40)]
+    cases = []
+    k = 0
+    for u in units:
+        i = u["gidx"]
+        _, rule, mk = DEEP_GRAMMARS[i]
+        for d in ladder + over:
+            cases.append(("d%d" % k, i, rule, 1, 2000000000, mk(d), d))  # mode 1: plain parse, no event log
+            k += 1
+    crate = os.path.join(wd, "crate_deep")
+    tn = build.unique_bin("deep")
+    build.write_batch_crate(crate, [(tn, units)])
+    tgt = build.tool_vfrt("dev-hooks")
+    ok, failures, proc = build.build_batch_crate(crate, tgt, build.flavor_flags("dev-hooks"))
+    if tn not in ok:
+        out.inconc("deep_leg_build_failed")
+        out.notes.append({"deep_build": proc.stdout[-1200:]})
+        return 0, 0
+    binp = os.path.join(wd, "deep.bin")
+    shutil.copy(ok[tn], binp)
+    os.remove(ok[tn])
+    env = {"VFRT_STACK_MB": "2048"}
+    bycase = {c[0]: c for c in cases}
+
+    def fp_of(rec):
+        return (tuple(rec["result"]) if rec["result"] else None,)
+
+    # reference: every case alone in a fresh process
+    from concurrent.futures import ThreadPoolExecutor
+
+    def alone(c):
+        cpf = os.path.join(wd, "deep_one_%s.tsv" % c[0])
+        lpf = os.path.join(wd, "deep_one_%s.log" % c[0])
+        write_cases(cpf, [c])
+        try:
+            subprocess.run([binp, cpf, lpf], stdout=subprocess.DEVNULL, stderr=subprocess.DEVNULL, timeout=300, env=dict(build.BASE_ENV, **env))
+            return c[0], fp_of(build.parse_log(lpf)[c[0]]["noop"][0])
+        except Exception:
+            return c[0], None
+        finally:
+            for pth in (cpf, lpf):
+                if os.path.exists(pth):
+                    os.remove(pth)
+    ref = {}
+    with ThreadPoolExecutor(max_workers=build.NCPU) as ex:
+        for cid, fp in ex.map(alone, cases):
+            if fp is None or fp[0] is None or fp[0][0] not in ("ok", "err"):
+                out.inconc("deep_reference_run_failed")
+            else:
+                ref[cid] = fp
+    evaluations = len(ref)
+    nontriv = 0
+    accepted_depths = sorted({bycase[cid][6] for cid, fp in ref.items() if fp[0][0] == "ok"})
+    # histories: ascending, the over-deep ones first then descending, shuffled with repeats
+    asc = sorted(cases, key=lambda c: (c[6], c[1]))
+    hostile = [c for c in cases if c[6] in over] + sorted([c for c in cases if c[6] not in over], key=lambda c: (-c[6], c[1]))
+    shuf = cases + [rnd.choice(cases) for _ in range(len(cases) // 4)]
+    rnd.shuffle(shuf)
+    compared = 0
+    for hname, order in ((("ascending", asc), ("over-deep-first", hostile)) + ((("shuffled", shuf),) if tier != "quick" else ())):
+        cp = os.path.join(wd, "deep_%s.tsv" % hname)
+        lp = os.path.join(wd, "deep_%s.log" % hname)
+        write_cases(cp, order)
+        crashes, to = build.run_batch_bin(binp, cp, lp, len(order), env=env, timeout=900)
+        if crashes or to:
+            out.inconc("deep_history_process_died_or_timed_out", len(crashes) + (1 if to else 0))
+        for cid, modes in build.parse_log(lp).items():
+            for rec in modes.get("noop", []):
+                if cid not in ref or not rec.get("result") or rec["result"][0] not in ("ok", "err"):
+                    continue
+                compared += 1
+                evaluations += 1
+                if bycase[cid][6] >= 100:
+                    nontriv += 1
+                fp = fp_of(rec)
+                if fp != ref[cid]:
+                    c = bycase[cid]
+                    out.violation("c20:deep-history-dependent:%d" % c[1], "an input nested %d levels deep gives %s alone in a fresh process but %s in the '%s' history of one process (rule %s)" % (c[6], str(ref[cid][0])[:120], str(fp[0])[:120], hname, c[2]),
+                                  {"grammar_text": texts[c[1]], "rule": c[2], "nesting_depth": c[6], "history": hname, "fresh_process": str(ref[cid][0])[:300], "in_history": str(fp[0])[:300]})
+        for pth in (cp, lp):
+            if os.path.exists(pth):
+                os.remove(pth)
+    # threads: the same cases (x2) on 4 and 8 worker threads
+    cp = os.path.join(wd, "deep_all.tsv")
+    write_cases(cp, cases)
+    for ci, nth in enumerate((4,) if tier == "quick" else (4, 8)):
+        lpt = os.path.join(wd, "deep_thr_%d.log" % ci)
+        try:
+            p = subprocess.run([binp, "threads", cp, lpt, str(nth), str(seed * 31 + ci + 1), "1", "2"], stdout=subprocess.DEVNULL, stderr=subprocess.PIPE,
+                               timeout=900, env=dict(build.BASE_ENV, **env))
+        except subprocess.TimeoutExpired:
+            out.inconc("deep_threads_watchdog_timeout")
+            continue
+        if p.returncode != 0:
+            out.inconc("deep_threaded_run_died_rc_%s" % p.returncode)
+            continue
+        for cid, modes in build.parse_log(lpt).items():
+            for rec in modes.get("noop", []):
+                if cid not in ref or not rec.get("result") or rec["result"][0] not in ("ok", "err"):
+                    continue
+                compared += 1
+                evaluations += 1
+                if bycase[cid][6] >= 100:
+                    nontriv += 1
+                fp = fp_of(rec)
+                if fp != ref[cid]:
+                    c = bycase[cid]
+                    out.violation("c20:deep-thread-dependent:%d" % c[1], "an input nested %d levels deep gives %s alone in a fresh process but %s on worker thread %s of a %d-thread run (rule %s)" % (c[6], str(ref[cid][0])[:120], str(fp[0])[:120], rec.get("thread"), nth, c[2]),
+                                  {"grammar_text": texts[c[1]], "rule": c[2], "nesting_depth": c[6], "threads": nth, "fresh_process": str(ref[cid][0])[:300], "on_thread": str(fp[0])[:300]})
+        if os.path.exists(lpt):
+            os.remove(lpt)
+    out.coverage["deep_nesting"] = {"grammars": len(units), "depths": [min(ladder), max(over)], "ladder_step": step, "cases": len(cases), "fresh_process_references": len(ref),
+                                    "deepest_accepted": accepted_depths[-1] if accepted_depths else None, "parses_compared_with_reference": compared}
+    return evaluations, nontriv
 
 
 def tsan_leg(out, wd, units, cases, seed):
